@@ -8,6 +8,28 @@ non-dimensional key}, temperatures {default unit, explicit unit}; units rotate
 through the alphabets (quick) or take the full product (thorough, on a
 6-record core).  Every file is written to disk and loaded with
 GroupLibrary.Load.
+
+Third-wave families (both tiers; alphabets in mc/domains/w3_c12.py, factors by
+the reference unit model mc/models/unitsref.py):
+
+* unit space: every energy-dimension expression made of at most two names of
+  the reference unit table (`a`, `a b`, `a/b`, `a b^2`, `a b^3`: J, cal, eV,
+  erg, BTU, W s, W min, W h, hp h, N m, lbf ft, dyn m, Pa m^3, L atm, psi in^3,
+  C V, F V^2, ...) per mol (and per K), as file-level default and as explicit
+  unit, on a 2-record core (thorough: 8 records);
+* prefixes: all 20 SI prefixes (y ... Y, incl. da and h) on the energy unit
+  (J, cal), on the amount (mol) and on the kelvin (in entropy / heat-capacity
+  units and in every temperature of the file), default and explicit.  The
+  bare numbers of these files span about 1e-23 .. 1e+29, i.e. they are written in
+  exponent notation as YAML floats; inside "<number> <unit>" strings they are
+  written positionally (the unit grammar has no exponents);
+* magnitudes: three records with tiny (1e-7 .. 1e-5) and huge (1e16 .. 1e17)
+  values in all 54 mode combinations;
+* several groups in one file: every ordered pair (incl. twice the same) of a
+  4-record core with different reference temperatures, as two groups of ONE
+  file sharing its file-level default units, each group in {default,
+  explicit, non-dimensional} x temperatures {default, explicit} x T_ref line
+  {written, omitted when 298.15 K}; each group must load as it does alone.
 """
 import itertools
 import os
@@ -15,6 +37,7 @@ import tempfile
 
 from ..runner import Result
 from ..domains import estimates as E
+from ..domains import w3_c12 as W
 
 TWO_HASH_SEEDS = ('quick', 'thorough')   # tiers in which the space is walked under a second PYTHONHASHSEED
 LEVEL = 'exploration'
@@ -30,24 +53,49 @@ T_FACT = {'K': 1.0, 'kK': 1e3, 'mK': 1e-3}
 MODES = ['default', 'explicit', 'nd']
 SCHEME = E.SCHEME
 GROUP = 'C(C)(H)3'
+GROUP2 = 'C(C)2(H)2'
 BOUND = {'quick': '96 records x 54 mode combinations (3 modes for each of H, S, Cp '
                   'x 2 temperature modes), units rotating through 6 enthalpy, 4 '
                   'entropy/heat-capacity and 3 temperature units; 4 missing-unit '
                   'files per record class; every 298.15 K record also without a '
-                  'T_ref line (54 mode combinations)',
+                  'T_ref line (54 mode combinations); '
+                  'unit space: all %d energy expressions of at most two reference-table '
+                  'names x {default, explicit} x 2 records; prefixes: 20 SI prefixes x '
+                  '{J, cal, mol, K} x {default, explicit} x 2 records (bare numbers '
+                  'about 1e-23..1e29 in exponent notation); magnitudes: 3 records with '
+                  'tiny/huge values x 54 mode combinations; two groups in one file: '
+                  'all 16 ordered pairs of a 4-record core x 9 mode pairs x all '
+                  'temperature/T_ref-line presentations of each group'
+                  % len(W.energy_exprs()),
          'thorough': 'additionally the full product of modes and units for a '
-                     '6-record core (every zero/non-zero combination)'}
+                     '6-record core (every zero/non-zero combination); the unit-space '
+                     'and prefix families on that core as well (8 records)'}
 RULE = ('every presentation of every record is loaded; its reference values, '
         'table, range and reference temperature are compared with the record '
         'converted by the harness\'s own unit factors (1e-9; 1e-6 where eV per '
         'molecule is involved) and its getters with those of the '
         'non-dimensional presentation on a temperature grid; every value must '
         'be a plain float.  Non-trivial = at least one value uses a default or '
-        'explicit unit, or is zero')
+        'explicit unit, or is zero.  Unit-space / prefix units are converted by '
+        'the reference unit model (1e-6 where eV, molecule, lbf, psi or hp is '
+        'involved); with a prefixed kelvin the getters are compared at T_ref '
+        'and the table temperatures, not at the ends of the range.  In a file '
+        'with two groups each group is judged exactly like the same record '
+        'alone in a file')
 ASSUMPTIONS = ['the gas constant used for non-dimensionalisation is the '
                'library\'s own (pgradd.Consts), required to lie within 1e-5 of '
                '8.31446 J/mol/K',
-               'eV/molecule depends on CODATA vintage: tolerance 1e-6 there']
+               'eV/molecule depends on CODATA vintage: tolerance 1e-6 there',
+               'units whose definition contains a measured or rounded constant '
+               '(eV, molecule, lbf and what derives from it: psi, hp): tolerance '
+               '1e-6',
+               'a bare number is what PyYAML (YAML 1.1) reads as a float: the '
+               'harness writes exponent notation with a "." in the mantissa and '
+               'a signed exponent; numbers inside "<number> <unit>" strings are '
+               'written without exponent (the documented unit grammar has none)',
+               'whether a temperature that is exactly an end of the valid range '
+               'is inside it after conversion from a prefixed kelvin is decided '
+               'by the last bit of the conversion: not judged']
 MANIFEST = dict(
     technique='exhaustive enumeration of records x unit presentations loaded '
               'from generated files, differential against the non-dimensional '
@@ -57,7 +105,12 @@ MANIFEST = dict(
          'non-dimensional keys, independently for enthalpy, entropy, heat '
          'capacity and temperature, must load to the same correlation with '
          'plain-number fields and getters, zero values included; a '
-         'dimensional value without any available unit must be rejected.',
+         'dimensional value without any available unit must be rejected.  '
+         'Also enumerated: every energy unit expression of at most two unit '
+         'names (W h, L atm, lbf ft, ...), all 20 SI prefixes on energy, '
+         'amount and kelvin (bare numbers down to about 1e-23 and up to 1e29), '
+         'records of tiny and huge magnitude, and files holding two groups '
+         'with different reference temperatures and presentations.',
     note='Values come from a small alphabet including zero and negative '
          'numbers; mixed units inside one Cp table are exercised through '
          'per-point explicit units.',
@@ -81,6 +134,46 @@ def records():
     return out
 
 
+def mag_records():
+    """Records of tiny and of huge magnitude (kcal/mol, cal/mol/K)."""
+    return [
+        dict(H=2.5e-05, S=-3.5e-06, cp='tiny',
+             table=[(280.0, 1.25e-07), (400.0, 7.84), (500.0, 6.5e-05)],
+             range=(250.0, 1500.0), tref=298.15),
+        dict(H=-7.25e+16, S=4.5e+17, cp='huge',
+             table=[(280.0, 6.19), (400.0, 2.5e+16), (500.0, 9.4)],
+             range=(250.0, 1500.0), tref=300.0),
+        dict(H=-4.0e-07, S=6.0e+16, cp='none', table=[], range=None, tref=300.0),
+    ]
+
+
+def pool(name):
+    return mag_records() if name == 'mag' else records()
+
+
+def find(**kw):
+    for i, r in enumerate(records()):
+        if all(r[k] == v for k, v in kw.items()):
+            return i
+    raise KeyError(kw)
+
+
+def ucore():
+    """Records of the unit-space and prefix families: one without, one with
+    zero values; both with a range wider than the table."""
+    return [find(H=-10.2, S=30.41, cp='four', range=(250.0, 1500.0), tref=298.15),
+            find(H=0.0, S=0.0, cp='three-with-zero', range=(250.0, 1500.0), tref=300.0)]
+
+
+def gcore():
+    """Records of the two-groups-in-one-file family: both reference
+    temperatures, zero and non-zero enthalpy, every table shape."""
+    return [find(H=-10.2, S=30.41, cp='four', range=(250.0, 1500.0), tref=298.15),
+            find(H=1.5, S=0.0, cp='three-with-zero', range=(250.0, 1500.0), tref=300.0),
+            find(H=0.0, S=30.41, cp='one', range=(250.0, 1500.0), tref=300.0),
+            find(H=1.5, S=30.41, cp='none', range=None, tref=298.15)]
+
+
 def gas_constant():
     from pgradd.Consts import GAS_CONSTANT
     return float(GAS_CONSTANT.in_units('J/(mol K)'))
@@ -90,64 +183,121 @@ def num(x):
     return repr(float(x))
 
 
-def render(rec, mH, mS, mC, mT, uH, uS, uC, uT, R0, drop_default=None,
-           omit_tref=False):
-    """-> YAML text.  m* in MODES (mT in default/explicit)."""
-    units = {}
+# spelling of a bare number (YAML float) / of a number inside '<number> <unit>';
+# both equal num(x) for 1e-4 <= |x| < 1e16
+bare = W.yaml_float
+inunit = W.positional
+_FACT = {}
 
+
+def hfact(u):
+    if u in H_FACT:
+        return H_FACT[u]
+    if ('H', u) not in _FACT:
+        _FACT['H', u] = W.si_factor(u, W.E_PER_MOL)
+    return _FACT['H', u]
+
+
+def sfact(u):
+    if u in S_FACT:
+        return S_FACT[u]
+    if ('S', u) not in _FACT:
+        _FACT['S', u] = W.si_factor(u, W.E_PER_MOL_K)
+    return _FACT['S', u]
+
+
+def tfact(u):
+    if u in T_FACT:
+        return T_FACT[u]
+    if ('T', u) not in _FACT:
+        _FACT['T', u] = W.si_factor(u, W.KELVIN)
+    return _FACT['T', u]
+
+
+def body(rec, mH, mS, mC, mT, uH, uS, uC, uT, R0, units, omit_tref=False):
+    """Lines of one thermochem block; file-level defaults it relies on are
+    entered into `units`."""
     def temp(T):
-        v = T / T_FACT[uT]
+        v = T / tfact(uT)
         if mT == 'default':
             units['temperature'] = uT
-            return num(v)
-        return '%s %s' % (num(v), uT)
+            return bare(v)
+        return '%s %s' % (inunit(v), uT)
     lines = []
     if not omit_tref:
         lines.append('      T_ref: %s' % temp(rec['tref']))
     Hj = rec['H'] * 4184.0
     Sj = rec['S'] * 4.184
     if mH == 'nd':
-        lines.append('      ND_H_ref: %s' % num(Hj / (R0 * rec['tref'])))
+        lines.append('      ND_H_ref: %s' % bare(Hj / (R0 * rec['tref'])))
     else:
-        v = Hj / H_FACT[uH]
+        v = Hj / hfact(uH)
         if mH == 'default':
             units['molar enthalpy'] = uH
-            lines.append('      H_ref: %s' % num(v))
+            lines.append('      H_ref: %s' % bare(v))
         else:
-            lines.append('      H_ref: %s %s' % (num(v), uH))
+            lines.append('      H_ref: %s %s' % (inunit(v), uH))
     if mS == 'nd':
-        lines.append('      ND_S_ref: %s' % num(Sj / R0))
+        lines.append('      ND_S_ref: %s' % bare(Sj / R0))
     else:
-        v = Sj / S_FACT[uS]
+        v = Sj / sfact(uS)
         if mS == 'default':
             units['molar entropy'] = uS
-            lines.append('      S_ref: %s' % num(v))
+            lines.append('      S_ref: %s' % bare(v))
         else:
-            lines.append('      S_ref: %s %s' % (num(v), uS))
+            lines.append('      S_ref: %s %s' % (inunit(v), uS))
     if rec['table']:
         lines.append('      %s:' % ('ND_Cp_data' if mC == 'nd' else 'Cp_data'))
         for k, (T, cp) in enumerate(rec['table']):
             cj = cp * 4.184
             if mC == 'nd':
-                lines.append('        - [%s, %s]' % (temp(T), num(cj / R0)))
+                lines.append('        - [%s, %s]' % (temp(T), bare(cj / R0)))
             elif mC == 'default':
                 units['molar heat capacity'] = uC
-                lines.append('        - [%s, %s]' % (temp(T), num(cj / S_FACT[uC])))
+                lines.append('        - [%s, %s]' % (temp(T), bare(cj / sfact(uC))))
             else:
-                # explicit: rotate the unit from point to point
-                u = S_UNITS[(S_UNITS.index(uC) + k) % len(S_UNITS)]
-                lines.append('        - [%s, %s %s]' % (temp(T), num(cj / S_FACT[u]), u))
+                # explicit: rotate the unit from point to point (units outside
+                # the rotating alphabet are used for every point)
+                u = (S_UNITS[(S_UNITS.index(uC) + k) % len(S_UNITS)]
+                     if uC in S_UNITS else uC)
+                lines.append('        - [%s, %s %s]' % (temp(T), inunit(cj / sfact(u)), u))
     if rec['range']:
         lines.append('      range: [%s, %s]' % (temp(rec['range'][0]), temp(rec['range'][1])))
+    return lines
+
+
+def head(units):
+    out = []
+    if units:
+        out.append('units:')
+        for k in sorted(units):
+            out.append('  %s: %s' % (k, units[k]))
+    out.append('groups:')
+    return out
+
+
+def render(rec, mH, mS, mC, mT, uH, uS, uC, uT, R0, drop_default=None,
+           omit_tref=False):
+    """-> YAML text.  m* in MODES (mT in default/explicit)."""
+    units = {}
+    lines = body(rec, mH, mS, mC, mT, uH, uS, uC, uT, R0, units, omit_tref)
     if drop_default:
         units.pop(drop_default, None)
-    head = []
-    if units:
-        head.append('units:')
-        for k in sorted(units):
-            head.append('  %s: %s' % (k, units[k]))
-    head += ['groups:', "  '%s':" % GROUP, '    thermochem:']
-    return '\n'.join(head + lines) + '\n'
+    return '\n'.join(head(units) + ["  '%s':" % GROUP, '    thermochem:'] + lines) + '\n'
+
+
+def render_two(recs, press, omits, R0):
+    """Two groups in ONE file.  A kind presented as 'default' in both groups
+    must name the same unit in both (it is the file's default)."""
+    units = {}
+    text = []
+    for name, rec, pres, omit in zip((GROUP, GROUP2), recs, press, omits):
+        before = dict(units)
+        lines = body(rec, *pres, R0, units, omit)
+        for k in before:
+            assert units[k] == before[k], 'harness: two defaults for %s' % k
+        text += ["  '%s':" % name, '    thermochem:'] + lines
+    return '\n'.join(head(units) + text) + '\n'
 
 
 def load_text(text):
@@ -173,13 +323,14 @@ def fields(k):
                 range=None if rng is None else tuple(rng), tref=k.T_ref)
 
 
-def observe(k, rec):
+def observe(k, rec, interior=False):
     if not rec['range'] and len(rec['table']) == 1:
         # zero-width valid interval: whether T lies "inside" is decided by the
         # last bit of a unit conversion - only the fields are compared
         return []
     temps = sorted({rec['tref']} | {T for T, _ in rec['table']} |
-                   ({rec['range'][0], rec['range'][1]} if rec['range'] else set()))
+                   ({rec['range'][0], rec['range'][1]}
+                    if rec['range'] and not interior else set()))
     out = []
     for T in temps:
         for p in ('get_CpoR', 'get_HoRT', 'get_SoR'):
@@ -187,22 +338,20 @@ def observe(k, rec):
     return out
 
 
-def check(R, rec, pres, R0, base_obs, wit):
+def tol_of(pres):
     mH, mS, mC, mT, uH, uS, uC, uT = pres
-    text = render(rec, mH, mS, mC, mT, uH, uS, uC, uT, R0)
-    R.evals += 1
-    if (mH, mS, mC) != ('nd', 'nd', 'nd') or rec['H'] == 0 or rec['S'] == 0:
-        R.nontrivial += 1
-    tol = 1e-6 if (uH == 'eV/molecule' and mH != 'nd') else 1e-9
-    try:
-        lib = load_text(text)
-        k = lib[GROUP]['thermochem']
-    except Exception as e:      # noqa
-        R.outcomes['load-failed:' + type(e).__name__] += 1
-        R.violation('load-failed:%s:%s' % (type(e).__name__, zero_tag(rec)),
-                    'a valid presentation %r of %r could not be loaded: %s\n%s'
-                    % (pres, short(rec), e, text), wit)
-        return
+    if uH == 'eV/molecule' and mH != 'nd':
+        return 1e-6
+    for m, u, known in ((mH, uH, H_FACT), (mS, uS, S_FACT), (mC, uC, S_FACT)):
+        if m != 'nd' and u not in known and W.inexact(u):
+            return 1e-6
+    return 1e-9
+
+
+def judge(k, rec, pres, R0, base_obs, interior=False):
+    """-> list of disagreements between the loaded correlation k and the
+    record (own conversion) / the non-dimensional presentation (getters)."""
+    tol = tol_of(pres)
     f = fields(k)
     want = dict(H=rec['H'] * 4184.0 / (R0 * rec['tref']), S=rec['S'] * 4.184 / R0,
                 Cp=[(T, cp * 4.184 / R0) for T, cp in rec['table']],
@@ -229,7 +378,7 @@ def check(R, rec, pres, R0, base_obs, wit):
                                             close(f['range'][1], want['range'][1]))):
         probs.append('range loads as %r, expected %r' % (f['range'], want['range']))
     if not probs:
-        obs = observe(k, rec)
+        obs = observe(k, rec, interior)
         for a, b in zip(obs, base_obs):
             if a[0] != b[0]:
                 probs.append('getter outcome %r vs non-dimensional presentation %r' % (a, b))
@@ -241,12 +390,37 @@ def check(R, rec, pres, R0, base_obs, wit):
                 if abs(float(a[1]) - float(b[1])) > tol * max(1.0, abs(float(b[1]))):
                     probs.append('getter gives %r, non-dimensional presentation %r' % (a[1], b[1]))
                     break
-    R.outcomes['same' if not probs else 'differs'] += 1
+    return probs
+
+
+def check(R, rec, pres, R0, base_obs, wit, fam='presentation', interior=False):
+    mH, mS, mC, mT, uH, uS, uC, uT = pres
+    text = render(rec, mH, mS, mC, mT, uH, uS, uC, uT, R0)
+    R.evals += 1
+    if (mH, mS, mC) != ('nd', 'nd', 'nd') or rec['H'] == 0 or rec['S'] == 0:
+        R.nontrivial += 1
+    new = fam != 'presentation'
+    try:
+        lib = load_text(text)
+        k = lib[GROUP]['thermochem']
+    except Exception as e:      # noqa
+        R.outcomes[(fam + ':' if new else '') + 'load-failed:' + type(e).__name__] += 1
+        R.violation('%sload-failed:%s:%s' % (fam + ':' if new else '',
+                                             type(e).__name__, zero_tag(rec)),
+                    'a valid presentation %r of %r could not be loaded: %s\n%s'
+                    % (pres, short(rec), e, text), wit)
+        return
+    probs = judge(k, rec, pres, R0, base_obs, interior)
+    R.outcomes[(fam + ':' if new else '') + ('same' if not probs else 'differs')] += 1
     if probs:
-        R.violation('presentation:%s:%s' % (probs[0].split(' ')[0], zero_tag(rec)),
-                    '%r presented as %r: %s' % (short(rec), pres, probs[0]), wit)
+        R.violation('%s:%s:%s' % (fam, probs[0].split(' ')[0], zero_tag(rec)),
+                    '%r presented as %r: %s' % (short(rec), pres, probs[0])
+                    + ('\n' + text if new else ''), wit)
     elif (mH, mS, mC) == ('default', 'explicit', 'nd'):
         R.sample(dict(record=short(rec), presentation=list(pres), file=text), limit=1)
+    elif new and mH == 'default':
+        R.sample(dict(family=fam, record=short(rec), presentation=list(pres), file=text),
+                 limit=1)
 
 
 def zero_tag(rec):
@@ -280,20 +454,144 @@ def presentations_full():
                             yield (mH, mS, mC, mT, uH, uS, uC, uT)
 
 
+def presentations_units():
+    """Unit space: every energy expression, default and explicit."""
+    for n, Ex in enumerate(W.energy_exprs()):
+        uH, uS, uC = W.triple(Ex)
+        for m in ('default', 'explicit'):
+            yield (m, m, m, ('default', 'explicit')[n % 2], uH, uS, uC, 'K')
+
+
+def presentations_prefix(pos):
+    """All SI prefixes at one position (J, cal, mol, K), default and explicit."""
+    for p in W.PREFIXES:
+        uH, uS, uC, uT = W.prefix_units(pos, p)
+        for m in ('default', 'explicit'):
+            yield (m, m, m, m, uH, uS, uC, uT)
+
+
+def base_of(rec, R0, interior=False):
+    base_text = render(rec, 'nd', 'nd', 'nd', 'explicit', 'J/mol', 'J/mol/K', 'J/mol/K', 'K', R0)
+    base = load_text(base_text)[GROUP]['thermochem']
+    return observe(base, rec, interior)
+
+
 def run_record(R, idx, tier, full=False, only=None):
     rec = records()[idx]
     R0 = gas_constant()
     if abs(R0 - 8.31446) > 1e-4:
         R.violation('gas-constant', 'library gas constant is %r J/mol/K' % R0,
                     dict(kind='const'))
-    base_text = render(rec, 'nd', 'nd', 'nd', 'explicit', 'J/mol', 'J/mol/K', 'J/mol/K', 'K', R0)
-    base = load_text(base_text)[GROUP]['thermochem']
-    base_obs = observe(base, rec)
+    base_obs = base_of(rec, R0)
     pres = presentations_full() if full else presentations_rotating(idx)
     for p in pres:
         if only is not None and list(p) != only:
             continue
         check(R, rec, p, R0, base_obs, dict(kind='pres', record=idx, pres=list(p)))
+
+
+def run_family(R, fam, poolname, idx, pos=None):
+    """fam in units | prefix | magnitude: one record through one family."""
+    rec = pool(poolname)[idx]
+    R0 = gas_constant()
+    interior = fam == 'prefix' and pos == 'K'
+    if interior:
+        assert rec['range'] and all(rec['range'][0] < T < rec['range'][1]
+                                    for T, _ in rec['table'])
+    base_obs = base_of(rec, R0, interior)
+    pres = (presentations_units() if fam == 'units' else
+            presentations_prefix(pos) if fam == 'prefix' else
+            presentations_rotating(idx))
+    for p in pres:
+        run_case(R, dict(kind='case', fam=fam, pool=poolname, record=idx, pres=list(p),
+                         interior=interior), R0, base_obs)
+
+
+def run_case(R, w, R0=None, base_obs=None):
+    rec = pool(w['pool'])[w['record']]
+    if R0 is None:
+        R0 = gas_constant()
+        base_obs = base_of(rec, R0, w['interior'])
+    check(R, rec, tuple(w['pres']), R0, base_obs, w, fam=w['fam'], interior=w['interior'])
+
+
+# ---- two groups in one file
+
+def group_presentations(rec):
+    """(pres, omit_tref) of one group; value modes move together, the
+    temperature mode and the T_ref line independently.  Explicit units
+    rotate with n; default units are the file's (see multi_cases)."""
+    for m in MODES:
+        for mT in ('default', 'explicit'):
+            for omit in ((False, True) if rec['tref'] == 298.15 else (False,)):
+                yield m, mT, omit
+
+
+def multi_cases(a):
+    """All files whose FIRST group is record gcore()[a]."""
+    core = gcore()
+    rs = records()
+    n = 0
+    for b in range(len(core)):
+        ra, rb = rs[core[a]], rs[core[b]]
+        for (mA, tA, oA) in group_presentations(ra):
+            for (mB, tB, oB) in group_presentations(rb):
+                n += 1
+                D = (H_UNITS[n % len(H_UNITS)], S_UNITS[n % 4], S_UNITS[(n // 2) % 4],
+                     T_UNITS[n % 3])                    # the file's defaults
+                X = [(H_UNITS[(n + 1 + g) % len(H_UNITS)], S_UNITS[(n + 2 + g) % 4],
+                      S_UNITS[(n + 3 + g) % 4], T_UNITS[(n + 1 + g) % 3]) for g in (0, 1)]
+                press = []
+                for g, (m, t) in enumerate(((mA, tA), (mB, tB))):
+                    u = D if m == 'default' else X[g]
+                    uT = D[3] if t == 'default' else X[g][3]
+                    press.append([m, m, m, t, u[0], u[1], u[2], uT])
+                yield dict(kind='multi', recs=[core[a], core[b]], pres=press,
+                           omit=[oA, oB])
+
+
+_BASE = {}
+
+
+def run_multi_case(R, w):
+    R0 = gas_constant()
+    rs = records()
+    recs = [rs[i] for i in w['recs']]
+    press = [tuple(p) for p in w['pres']]
+    text = render_two(recs, press, w['omit'], R0)
+    R.evals += 1
+    R.nontrivial += 1
+    try:
+        lib = load_text(text)
+        ks = [lib[g]['thermochem'] for g in (GROUP, GROUP2)]
+    except Exception as e:      # noqa
+        R.outcomes['multi:load-failed:' + type(e).__name__] += 1
+        R.violation('multi:load-failed:%s' % type(e).__name__,
+                    'a file with two groups %r presented as %r (T_ref line omitted: %r) '
+                    'could not be loaded: %s\n%s'
+                    % ([short(r) for r in recs], press, w['omit'], e, text), w)
+        return
+    bad = None
+    for g, (k, rec, pres, idx) in enumerate(zip(ks, recs, press, w['recs'])):
+        if idx not in _BASE:
+            _BASE[idx] = base_of(rec, R0)
+        probs = judge(k, rec, pres, R0, _BASE[idx])
+        if probs and bad is None:
+            bad = (g, probs[0])
+    R.outcomes['multi:%s' % ('same' if bad is None else 'differs')] += 1
+    if bad is not None:
+        g, p = bad
+        R.violation('multi:%s:%s-group' % (p.split(' ')[0], ('first', 'second')[g]),
+                    'file with two groups %r presented as %r (T_ref line omitted: %r): '
+                    'the %s group: %s\n%s' % ([short(r) for r in recs], press, w['omit'],
+                                              ('first', 'second')[g], p, text), w)
+    elif press[0][0] == 'default' and press[1][0] == 'explicit':
+        R.sample(dict(family='two groups in one file', file=text), limit=1)
+
+
+def run_multi(R, a):
+    for w in multi_cases(a):
+        run_multi_case(R, w)
 
 
 def run_default_tref(R, idx, only=None):
@@ -379,9 +677,19 @@ def core_records():
 def shards(tier, seed):
     out = [('rec', i) for i in range(len(records()))]
     out.append(('missing',))
+    fam_recs = list(ucore())
     if tier == 'thorough':
         for i in core_records():
             out.append(('full', i))
+        fam_recs += [i for i in core_records() if i not in fam_recs]
+    for i in fam_recs:
+        out.append(('units', i))
+        for pos in W.PREFIX_POSITIONS:
+            out.append(('prefix', i, pos))
+    for i in range(len(mag_records())):
+        out.append(('mag', i))
+    for a in range(len(gcore())):
+        out.append(('multi', a))
     return out
 
 
@@ -392,6 +700,14 @@ def run_shard(shard, tier):
         run_default_tref(R, shard[1])
     elif shard[0] == 'full':
         run_record(R, shard[1], tier, full=True)
+    elif shard[0] == 'units':
+        run_family(R, 'units', 'records', shard[1])
+    elif shard[0] == 'prefix':
+        run_family(R, 'prefix', 'records', shard[1], shard[2])
+    elif shard[0] == 'mag':
+        run_family(R, 'magnitude', 'mag', shard[1])
+    elif shard[0] == 'multi':
+        run_multi(R, shard[1])
     else:
         run_missing(R)
     return R
@@ -407,5 +723,9 @@ def replay(w):
         run_missing(R)
     elif w['kind'] == 'tref-default':
         run_default_tref(R, w['record'], only=w['pres'])
+    elif w['kind'] == 'case':
+        run_case(R, w)
+    elif w['kind'] == 'multi':
+        run_multi_case(R, w)
     return dict(violates=bool(R.violations),
                 detail='\n'.join(v['msg'] for v in R.violations[:3]) or 'holds')
